@@ -175,3 +175,9 @@ ENTRIES = [
     N('pasv-blank-after-paren', U, "        r'\\('\n        r'(\\d{1,3})\\s*,'\n", "        r'\\(\\s*'\n        r'([0-9]{1,3})\\s*,'\n"),
     N('pasv-no-match-first', U, "    if match:\n        if any(", "    if match is None:\n        raise ValueError('No address found')\n    if match:\n        if any("),
 ]
+
+ENTRIES += [
+    B('reply-parse-strips-lines', 'wpull/protocol/ftp/request.py', "        for line in data.splitlines(False):", "        for line in data.strip().splitlines(False):", 'C17-D3'),
+    B('reply-parse-lstrips-line', 'wpull/protocol/ftp/request.py', "        for line in data.splitlines(False):\n", "        for line in data.splitlines(False):\n            line = line.lstrip()\n", 'C17-D3'),
+    N('reply-parse-splitlines-default', 'wpull/protocol/ftp/request.py', "        for line in data.splitlines(False):", "        for line in data.splitlines():"),
+]
